@@ -66,7 +66,14 @@ Definition mon_quiescent (e : eds) (rss : list ers) (nodes : list node) (pods : 
                | Some r => count_if (fun p => eds_pod e p && negb (pod_terminating p) &&
                                             option_eqb N.eqb (p_hash p) (Some (r_tmplgen r))) pods
                | None => 0 end in
-  code_if ((es_desired st =? nel) && (es_current st =? npods) && (es_ready st =? npods) && (es_available st =? npods)) 18 ++
+  (* known finding D9 seen from the status: a canary node that vanished or became ineligible stays on status.canary.nodes
+     while the count matches, and the canary replica set goes on counting it as desired - code 118 instead of 18 *)
+  let stale_canary_node :=
+    match es_canary st with
+    | Some c => existsb (fun nn => negb (existsb (fun n => N.eqb (n_name n) nn && eligible e rss n) nodes)) (cs_nodes c)
+    | None => false end in
+  (if (es_desired st =? nel) && (es_current st =? npods) && (es_ready st =? npods) && (es_available st =? npods) then []
+   else if stale_canary_node then [118%N] else [18%N]) ++
   code_if (es_uptodate st =? nlive) 19.
 
 Definition chk (c : case) : list N :=
